@@ -27,6 +27,28 @@ pub struct MonotonicTime(pub u64); // whole seconds
 impl MonotonicTime {
     pub const MAX: MonotonicTime = MonotonicTime(u64::MAX);
     pub const EPOCH: MonotonicTime = MonotonicTime(0);
+    // the part of tai_time's API a kernel may reasonably use (whole seconds in this stand-in)
+    pub fn checked_add(self, d: Duration) -> Option<Self> {
+        self.0.checked_add(d.as_secs()).map(MonotonicTime)
+    }
+    pub fn checked_sub(self, d: Duration) -> Option<Self> {
+        self.0.checked_sub(d.as_secs()).map(MonotonicTime)
+    }
+    pub fn duration_since(self, earlier: Self) -> Duration {
+        Duration::from_secs(self.0.checked_sub(earlier.0).expect("earlier is later"))
+    }
+    pub fn checked_duration_since(self, earlier: Self) -> Option<Duration> {
+        self.0.checked_sub(earlier.0).map(Duration::from_secs)
+    }
+    pub fn as_secs(&self) -> i64 {
+        self.0 as i64
+    }
+}
+impl std::ops::Sub<Duration> for MonotonicTime {
+    type Output = MonotonicTime;
+    fn sub(self, d: Duration) -> MonotonicTime {
+        MonotonicTime(self.0.checked_sub(d.as_secs()).expect("time underflow"))
+    }
 }
 impl std::ops::Add<Duration> for MonotonicTime {
     type Output = MonotonicTime;
